@@ -48,7 +48,18 @@ def rules(direction):
     ]
     for c in FAMILY:
         expr.append(("isinstance($x, %s)" % c, "isSub tbl {x}.cls .%s" % c))
-        expr.append(("%s($x.h_matrix)" % c, "(⟨.%s, {x}.M⟩ : HT d)" % c))
+        # the constructor call `C(x.h_matrix)` and its respellings with the keyword arguments written out (sorted by
+        # name by the normaliser).  All are the same word of the ladder model: matrices are values (`copy=` either
+        # way), and the checks of `skip_checks=False` - the default, `ctorDefaults_ok` - are what
+        # `ladder_ctor_justified` / `ladder_ctor_refuses_other_dims` (Props/C03Ctor.lean) say they are.
+        word = "(⟨.%s, {x}.M⟩ : HT d)" % c
+        expr.append(("%s($x.h_matrix)" % c, word))
+        for cp in ("True", "False"):
+            expr.append(("%s($x.h_matrix, copy=%s)" % (c, cp), word))
+            for sk in ("True", "False"):
+                expr.append(("%s($x.h_matrix, copy=%s, skip_checks=%s)" % (c, cp, sk), word))
+        for sk in ("True", "False"):
+            expr.append(("%s($x.h_matrix, skip_checks=%s)" % (c, sk), word))
     stmt = [
         ("$x._compose_before_inplace($y)", "x", "(⟨{x}.cls, rawCompose .before {x}.M {y}.M⟩ : HT d)"),
         ("$x._compose_after_inplace($y)", "x", "(⟨{x}.cls, rawCompose .after {x}.M {y}.M⟩ : HT d)"),
